@@ -122,7 +122,7 @@ def run(ck, replay=None):
             cases.append((tuple(c["shape"]), c["h"], c["omode"], c["kind"]))
     else:
         for s in shapes:
-            for (h, om) in gammas(rng, len(s), 3 if quick else 12):
+            for (h, om) in gammas(rng, len(s), 5 if quick else 14):
                 cases.append((s, h, om, rng.choice(["scalar", "vector", "series", "vseries"])))
     events, info = [], {}
     for i, (s, h, om, kind) in enumerate(cases):
